@@ -30,8 +30,14 @@ RULE = ("kernel: the full grid of 12 mode spellings x tolerances {None,0,1/4,1/2
         "shuffled dimension and coordinate order, NaN injected with p=0.15, threshold lists of 1-4 values (sorted, tied, unsorted, NaN, scalar), "
         "invalid modes and negative tolerances for the error paths; contingency: event thresholds from {None,0,-1/2,-2,1/4,1,...} x operators "
         "{None,ge,gt,le,lt,eq,ne} x every reduce/preserve spelling; a case is distinct by the hash of (function, inputs, options), non-trivial "
-        "when at least one non-NaN cell exists")
-ASSUMPTIONS = ["inputs of the correspondence are dyadic rationals, so `comparison +- abs_tolerance` is exact in binary64"]
+        "when at least one non-NaN cell exists; precision stream: float32 / float16 / float64 data whose cells sit on the threshold rounded to "
+        "the storage type, one unit in the last place and 1e-12 ... 0.4 either side of 1-3 decimal thresholds those types cannot hold (0.7, 0.1, "
+        "0.001, 1/3, 0.3 next to 0.1+0.2, ...), tolerances None/0/1e-8/1e-6/1e-3/1/4; contingency: the same near-threshold values around the "
+        "threshold in force in 40% of the cases, non-dyadic event thresholds including the signature default 0.001")
+ASSUMPTIONS = ["inputs of the correspondence are dyadic rationals, so `comparison +- abs_tolerance` is exact in binary64; non-dyadic inputs are tied to "
+               "the model only where nothing is added to the threshold (tolerance None / 0, event operators)",
+               "with a non-zero tolerance on non-dyadic inputs the exact oracle leaves a cell undecided when its distance from the threshold is within "
+               "1e-12 of the tolerance (binary64 rounding of `comparison +- abs_tolerance`)"]
 
 OPNAME = {operator.ge: "ge", operator.gt: "gt", operator.le: "le", operator.lt: "lt", operator.eq: "eq", operator.ne: "ne"}
 STR_MODES = [">=", ">", "<=", "<", "==", "!="]
